@@ -35,7 +35,7 @@ TEXT = {
             "§7 C13"),
     "C14": ("Lean theorems C14_split_render, C14_concat, C14_len, C14_alphabet, C14_decoder_tokens for every well-formed item list (unbounded), and C14e_encoder_output_wf / C14e_decoder_consumes / C14e_no_dot_edge: every string the encoder model returns, for every table, SMILES, flags and tape, is well formed and the decoder consumes exactly its symbols. Tie: correspondence of the three utilities on generated well-formed and malformed strings; encoder outputs checked on the real code.",
             "§7 C14"),
-    "C15": ("Lean theorems C15_label, C15_onehot_rows, C15_inverse_label, C15_inverse_onehot, C15_batch_pointwise, C15_batch_inverse, C15_errors for every vocabulary bijection, string over it and pad length; encoding_to_selfies is re-translated from the Python source on every run and proved equal to the model (GenEq5). Tied by correspondence over generated vocabularies / strings / pads / enc_type values.",
+    "C15": ("Lean theorems C15_label, C15_onehot_rows, C15_inverse_label, C15_inverse_onehot, C15_batch_pointwise, C15_batch_inverse, C15_errors for every vocabulary bijection, string over it and pad length; encoding_to_selfies and selfies_to_encoding are re-translated from the Python source on every run and proved equal to the model for all arguments (GenEq5, GenEq6; the lazy split_selfies generator enters as 'items yielded + terminal exception'). Tied by correspondence over generated vocabularies / strings / pads / enc_type values.",
             "§7 C15"),
     "C16": ("Lean theorems C16_roundtrip (all n, unbounded), C16_horner, C16_shortest, C16_unknown_zero, C16_missing_zero, C16_three_symbols, C16_alphabet_documented (generated constant = table parsed from derivation.rst) + GenEq, GenEq2, GenEq4 (get_index_from_selfies, get_selfies_from_index, _read_index_from_selfies re-translated from the Python source on every run and proved equal to the model for all arguments, incl. termination of the digit loop). Tied exhaustively: every n < 16^3 and every symbol triple on the real functions vs the model.",
             "§7 C16"),
